@@ -215,7 +215,11 @@ func zzScriptedFromPcap(indexDir string) func(pcapDir string, filenames []string
 
 // ---------------------------------------------------------------- the service under test
 
+// zzKnownPcaps is what the (scripted) importer reports as known capture files.
+var zzKnownPcaps []*pcapmetadata.PcapInfo
+
 func zzService(captures []zzCapture) *Manager {
+	zzKnownPcaps = nil
 	zzCaptures = map[string]zzCapture{}
 	for _, c := range captures {
 		zzCaptures[c.name] = c
@@ -234,8 +238,12 @@ func zzService(captures []zzCapture) *Manager {
 		zz.Override(b+"FromPcap", func(_ any, pcapDir string, filenames []string, existing []*index.Reader) (int, uint64, []*index.Reader, *bitmask.LongBitmask, *bitmask.LongBitmask, *bitmask.LongBitmask, error) {
 			return zzScriptedFromPcap(mgr.IndexDir)(pcapDir, filenames, existing)
 		})
-		zz.Override(b+"KnownPcaps", func(_ any) []*pcapmetadata.PcapInfo { return nil })
+		zz.Override(b+"KnownPcaps", func(_ any) []*pcapmetadata.PcapInfo { return zzKnownPcaps })
 		zz.Override(b+"PacketCount", func(_ any) uint { return 0 })
+		zz.Override(zzMgr+"newPcapOverIPEndpoint", func(m *Manager, ctx context.Context, address string) *pcapOverIPEndpoint {
+			// the connecting goroutine (network) is left out
+			return &pcapOverIPEndpoint{PcapOverIPEndpointInfo: PcapOverIPEndpointInfo{Address: address}, cancel: func() {}}
+		})
 		zz.Override(zzMgr+"triggerPcapProcessedWebhooks", func(m *Manager, f []string) {})
 	} else {
 		for _, c := range captures {
